@@ -285,6 +285,13 @@ def native_harness(tier, seed):
         n += 1
         if not all(np.allclose(np.asarray(x_), np.asarray(y_), atol=1e-6) for x_, y_ in zip(a_i, a_f)):
             fails.append('bss_eval_sources on int16 input differs from the same values as floats: SDR %s vs %s' % (np.asarray(a_i[0]).tolist(), np.asarray(a_f[0]).tolist()))
+        # the images variant on int16 input: same scores as the same values given as floats (no integer overflow in the energy sums)
+        im_i = S.bss_eval_images(refi, esti)
+        im_f = S.bss_eval_images(refi.astype(float), esti.astype(float))
+        n += 1
+        if not all(np.allclose(np.asarray(x_), np.asarray(y_), atol=1e-6, equal_nan=False) for x_, y_ in zip(im_i, im_f)):
+            fails.append('bss_eval_images on int16 input differs from the same values as floats: SDR %s vs %s, ISR %s vs %s' % (
+                np.asarray(im_i[0]).tolist(), np.asarray(im_f[0]).tolist(), np.asarray(im_i[1]).tolist(), np.asarray(im_f[1]).tolist()))
         parts_i = S._bss_decomp_mtifilt(refi, esti[0], 0, 512)
         if not np.allclose(sum(parts_i)[:Ti], esti[0], atol=1e-6):
             fails.append('_bss_decomp_mtifilt components do not sum to the estimate for int16 input')
